@@ -210,7 +210,7 @@ PROPS['C03'] = {
                 for n, pf, to, mem, tiers in [('when_all_two_threads', 'wac_', 2400, 14, ('quick', 'thorough')), ('split_concurrent_consumers', 'spc_', 3600, 28, ('thorough',)),
                                               ('ensure_started_concurrent', 'esc_', 3600, 28, ('thorough',))]] +
                [_c03('then_inline', 'then_'), _c03('let_value_inline', 'let_'), _c03('let_error_inline', 'lete_'), _c03('when_all_inline', 'wall_'), _c03('split_two_consumers_inline', 'split_'),
-                _c03('ensure_started_inline', 'ens_'), _c03('drop_value_inline', 'drop_'), _c03('drop_operation_state_inline', 'dos_'), _c03('unpack_inline', 'unp_'), _c03('split_tuple_inline', 'spt_')],
+                _c03('ensure_started_inline', 'ens_'), _c03('drop_value_inline', 'drop_'), _c03('drop_operation_state_inline', 'dos_'), _c03('unpack_inline', 'unp_'), _c03('split_tuple_inline', 'spt_'), _c03('when_all_throwing_store', 'wallt_')],
 }
 
 PROPS['C10'] = {
